@@ -227,6 +227,24 @@ def shard(args):
                         if specgen.spec_is_safe(sp2, realsys.unit_info):
                             spec = sp2
                             kind = "generated-dst-pair"
+                    if i % 2 == 1:
+                        # pure numbers written with a unit that is not 1: PUE and replication factor in percent, utilization
+                        # rate in percent, usage fraction in hour/day (factors of hourly values whose scale must not be lost)
+                        import copy as _copy
+                        spec = _copy.deepcopy(spec)
+                        for sv_ in spec["servers"].values():
+                            for prm in ("power_usage_effectiveness", "server_utilization_rate"):
+                                q_ = sv_.get(prm)
+                                if q_ and q_["u"] == "dimensionless":
+                                    sv_[prm] = {"m": round(q_["m"] * 100, 9), "u": "percent"}
+                        for st_ in spec["storages"].values():
+                            q_ = st_.get("data_replication_factor")
+                            if q_ and q_["u"] == "dimensionless":
+                                st_["data_replication_factor"] = {"m": round(q_["m"] * 100, 9), "u": "percent"}
+                        for dv_ in spec["devices"].values():
+                            q_ = dv_.get("fraction_of_usage_time")
+                            if q_ and q_["u"] == "dimensionless":
+                                dv_["fraction_of_usage_time"] = {"m": round(q_["m"] * 24, 9), "u": "hour/day"}
                     if i % 2 == 0 and kind == "generated" and history.has_shared_job(spec):
                         spec = specgen.unshare_jobs(spec)
                     moves = []
